@@ -33,13 +33,12 @@ package parsers
 // a classified token: a valid variant value; variables (and calls) carry their name as a string
 //@ pred tokOK(t *ExpressionToken) = t != nil && t.value != nil && vinv(t.value) &&
 //@     (t.typ == Variable ==> t.value.typ == variants.String) && t.typ != Function && t.typ != Unary
-//@ pred parserInv(c *ExpressionParser) = c != nil && 0 <= c.currentTokenIndex && c.currentTokenIndex <= len(c.initialTokens) &&
-//@     (forall i int :: 0 <= i && i < len(c.initialTokens) ==> tokOK(c.initialTokens[i])) &&
+//@ pred idxInv(c *ExpressionParser) = c != nil && 0 <= c.currentTokenIndex && c.currentTokenIndex <= len(c.initialTokens) &&
 //@     (arr(c.resultTokens) != arr(c.initialTokens) || arr(c.resultTokens) == 0)
+//@ pred parserInv(c *ExpressionParser) = idxInv(c) && (forall i int :: 0 <= i && i < len(c.initialTokens) ==> tokOK(c.initialTokens[i]))
 //
 // the token list is not touched by the syntax analysis
-//@ pred sameTokens(c *ExpressionParser) = c.initialTokens == old(c.initialTokens) &&
-//@     (forall i int :: 0 <= i && i < len(c.initialTokens) ==> c.initialTokens[i] == old(c.initialTokens[i])) &&
+//@ pred sameTokens(c *ExpressionParser) = c.initialTokens == old(c.initialTokens) && elems(c.initialTokens) == old(elems(c.initialTokens)) &&
 //@     (arr(c.resultTokens) == old(arr(c.resultTokens)) || fresh(c.resultTokens)) &&
 //@     (arr(c.variableNames) == old(arr(c.variableNames)) || fresh(c.variableNames))
 //
@@ -79,9 +78,12 @@ package parsers
 //
 // "a stray word in place of IS/NOT" is not accepted: every listed type must match, in order
 //@ func (c *ExpressionParser) matchTokensWithTypes
-//@   requires parserInv(c) && len(types) >= 1
-//@   ensures[C02] result == (forall i int :: 0 <= i && i < len(types) ==>
+//@   requires parserInv(c) && len(types) >= 1 && (forall i int :: 0 <= i && i < len(types) ==> types[i] > 0)
+//@   ensures[C02] result ==> (forall i int :: 0 <= i && i < len(types) ==>
 //@       old(c.currentTokenIndex) + i < len(c.initialTokens) && c.initialTokens[old(c.currentTokenIndex) + i].typ == types[i])
+//@   ensures[C02] len(types) == 2 ==> result == (tk(toks(c), tys(), old(c.currentTokenIndex)) == types[0] && tk(toks(c), tys(), old(c.currentTokenIndex) + 1) == types[1])
+//@   ensures[C02] len(types) == 3 ==> result == (tk(toks(c), tys(), old(c.currentTokenIndex)) == types[0] && tk(toks(c), tys(), old(c.currentTokenIndex) + 1) == types[1] &&
+//@       tk(toks(c), tys(), old(c.currentTokenIndex) + 2) == types[2])
 //@   ensures[C02] c.currentTokenIndex == old(c.currentTokenIndex) + (result ? len(types) : 0)
 //@   assigns c.currentTokenIndex
 //@   nopanic
@@ -92,13 +94,108 @@ package parsers
 //@         c.currentTokenIndex + i < len(c.initialTokens) && c.initialTokens[c.currentTokenIndex + i].typ == types[i]
 //@     decreases len(types) - rangeindex
 
+// ---- the expression grammar as a recogniser over the token types (C02) -------------------------------------
+// E<k>(s, ty, i) is the index just after the longest phrase of level k that starts at token i, or -1 if there
+// is none; R<k> continues a left-associative chain. Written from the statement's precedence table: AND/OR/XOR
+// lowest, prefix NOT, comparisons, additive operators and the postfix tests IS [NOT] NULL / NOT IN / [NOT] LIKE,
+// multiplicative operators, power/IN/shifts, then unary sign, constant | variable | ( expr ) | call, optional [ expr ].
+//@ spec tk(s seq[*ExpressionToken], ty fmap[int], i int) int = (i >= 0 && i < len(s)) ? ty[s[i]] : -1
+//
+//@ rec E0(s seq[*ExpressionToken], ty fmap[int], i int) int decreases len(s) - i, 14 =
+//@     E1(s, ty, i) < 0 ? -1 : R0(s, ty, E1(s, ty, i))
+//@ rec R0(s seq[*ExpressionToken], ty fmap[int], i int) int decreases len(s) - i, 15 =
+//@     (tk(s, ty, i) == And || tk(s, ty, i) == Or || tk(s, ty, i) == Xor) ?
+//@         (E1(s, ty, i + 1) > i ? R0(s, ty, E1(s, ty, i + 1)) : -1) : i
+//@ rec E1(s seq[*ExpressionToken], ty fmap[int], i int) int decreases len(s) - i, 13 =
+//@     (i < 0 || i >= len(s)) ? -1 : (tk(s, ty, i) == Not ? E2(s, ty, i + 1) : E2(s, ty, i))
+//@ rec E2(s seq[*ExpressionToken], ty fmap[int], i int) int decreases len(s) - i, 11 =
+//@     E3(s, ty, i) < 0 ? -1 : R2(s, ty, E3(s, ty, i))
+//@ spec isCmp(t int) bool = t == Equal || t == NotEqual || t == More || t == Less || t == EqualMore || t == EqualLess
+//@ rec R2(s seq[*ExpressionToken], ty fmap[int], i int) int decreases len(s) - i, 12 =
+//@     isCmp(tk(s, ty, i)) ? (E3(s, ty, i + 1) > i ? R2(s, ty, E3(s, ty, i + 1)) : -1) : i
+//@ rec E3(s seq[*ExpressionToken], ty fmap[int], i int) int decreases len(s) - i, 9 =
+//@     E4(s, ty, i) < 0 ? -1 : R3(s, ty, E4(s, ty, i))
+//@ rec R3(s seq[*ExpressionToken], ty fmap[int], i int) int decreases len(s) - i, 10 =
+//@     (tk(s, ty, i) == Plus || tk(s, ty, i) == Minus || tk(s, ty, i) == Like) ? (E4(s, ty, i + 1) > i ? R3(s, ty, E4(s, ty, i + 1)) : -1) :
+//@     (tk(s, ty, i) == Not && tk(s, ty, i + 1) == Like) ? (E4(s, ty, i + 2) > i ? R3(s, ty, E4(s, ty, i + 2)) : -1) :
+//@     (tk(s, ty, i) == Is && tk(s, ty, i + 1) == Null) ? R3(s, ty, i + 2) :
+//@     (tk(s, ty, i) == Is && tk(s, ty, i + 1) == Not && tk(s, ty, i + 2) == Null) ? R3(s, ty, i + 3) :
+//@     (tk(s, ty, i) == Not && tk(s, ty, i + 1) == In) ? (E4(s, ty, i + 2) > i ? R3(s, ty, E4(s, ty, i + 2)) : -1) : i
+//@ rec E4(s seq[*ExpressionToken], ty fmap[int], i int) int decreases len(s) - i, 7 =
+//@     E5(s, ty, i) < 0 ? -1 : R4(s, ty, E5(s, ty, i))
+//@ rec R4(s seq[*ExpressionToken], ty fmap[int], i int) int decreases len(s) - i, 8 =
+//@     (tk(s, ty, i) == Star || tk(s, ty, i) == Slash || tk(s, ty, i) == Procent) ? (E5(s, ty, i + 1) > i ? R4(s, ty, E5(s, ty, i + 1)) : -1) : i
+//@ rec E5(s seq[*ExpressionToken], ty fmap[int], i int) int decreases len(s) - i, 5 =
+//@     E6(s, ty, i) < 0 ? -1 : R5(s, ty, E6(s, ty, i))
+//@ rec R5(s seq[*ExpressionToken], ty fmap[int], i int) int decreases len(s) - i, 6 =
+//@     (tk(s, ty, i) == Power || tk(s, ty, i) == In || tk(s, ty, i) == ShiftLeft || tk(s, ty, i) == ShiftRight) ?
+//@         (E6(s, ty, i + 1) > i ? R5(s, ty, E6(s, ty, i + 1)) : -1) : i
+//
+// unary sign, primary, optional index
+//@ spec afterSign(s seq[*ExpressionToken], ty fmap[int], i int) int = (tk(s, ty, i) == Plus || tk(s, ty, i) == Minus) ? i + 1 : i
+//@ spec closeWith(s seq[*ExpressionToken], ty fmap[int], a int, closer int) int = a < 0 ? -1 : (tk(s, ty, a) == closer ? a + 1 : -1)
+//@ rec ARGS(s seq[*ExpressionToken], ty fmap[int], k int, cnt int) int decreases len(s) - k, 2 =
+//@     (k < 0 || k >= len(s)) ? -1 : ((tk(s, ty, k) == RightBrace && cnt == 0) ? k + 1 :
+//@     (E0(s, ty, k) < 0 ? -1 : (tk(s, ty, E0(s, ty, k)) == Comma ? (E0(s, ty, k) + 1 > k ? ARGS(s, ty, E0(s, ty, k) + 1, 1) : -1) :
+//@         closeWith(s, ty, E0(s, ty, k), RightBrace))))
+//@ spec PRIM(s seq[*ExpressionToken], ty fmap[int], j int) int =
+//@     tk(s, ty, j) == Constant ? j + 1 :
+//@     (tk(s, ty, j) == Variable && tk(s, ty, j + 1) != LeftBrace) ? j + 1 :
+//@     tk(s, ty, j) == LeftBrace ? closeWith(s, ty, E0(s, ty, j + 1), RightBrace) :
+//@     (tk(s, ty, j) == Variable && tk(s, ty, j + 1) == LeftBrace) ? ARGS(s, ty, j + 2, 0) : -1
+//@ spec INDEX(s seq[*ExpressionToken], ty fmap[int], p int) int =
+//@     p < 0 ? -1 : (tk(s, ty, p) == LeftSquareBrace ? closeWith(s, ty, E0(s, ty, p + 1), RightSquareBrace) : p)
+//@ rec E6(s seq[*ExpressionToken], ty fmap[int], i int) int decreases len(s) - i, 3 =
+//@     (i < 0 || i >= len(s) || afterSign(s, ty, i) >= len(s)) ? -1 : INDEX(s, ty, PRIM(s, ty, afterSign(s, ty, i)))
+//
+// no phrase starts at or after the end of the token list
+//@ lemma eof6(s seq[*ExpressionToken], ty fmap[int], i int)
+//@   tags C02
+//@   requires i >= len(s)
+//@   ensures E6(s, ty, i) == -1
+//@   trigger E6(s, ty, i)
+//@ lemma eof5(s seq[*ExpressionToken], ty fmap[int], i int)
+//@   tags C02
+//@   requires i >= len(s)
+//@   ensures E5(s, ty, i) == -1
+//@   trigger E5(s, ty, i)
+//@ lemma eof4(s seq[*ExpressionToken], ty fmap[int], i int)
+//@   tags C02
+//@   requires i >= len(s)
+//@   ensures E4(s, ty, i) == -1
+//@   trigger E4(s, ty, i)
+//@ lemma eof3(s seq[*ExpressionToken], ty fmap[int], i int)
+//@   tags C02
+//@   requires i >= len(s)
+//@   ensures E3(s, ty, i) == -1
+//@   trigger E3(s, ty, i)
+//@ lemma eof2(s seq[*ExpressionToken], ty fmap[int], i int)
+//@   tags C02
+//@   requires i >= len(s)
+//@   ensures E2(s, ty, i) == -1
+//@   trigger E2(s, ty, i)
+//@ lemma eof1(s seq[*ExpressionToken], ty fmap[int], i int)
+//@   tags C02
+//@   requires i >= len(s)
+//@   ensures E1(s, ty, i) == -1
+//@   trigger E1(s, ty, i)
+//@ lemma eof0(s seq[*ExpressionToken], ty fmap[int], i int)
+//@   tags C02
+//@   requires i >= len(s)
+//@   ensures E0(s, ty, i) == -1
+//@   trigger E0(s, ty, i)
+//@ spec toks(c *ExpressionParser) seq[*ExpressionToken] = seq(c.initialTokens)
+//@ spec tys() fmap[int] = heapof(ExpressionToken, typ)
+//
 // ---- syntax analysis (C02, C03): every level either fails with an error that carries a code or consumes at least
 // one token; it never panics, never touches the token list, and terminates (measure: tokens left, then level)
 //@ pred errHasCode(e error) = e != nil ==> typeof(e) == typeid("*errors.ApplicationError") && e.(*errors.ApplicationError) != nil && e.(*errors.ApplicationError).Code != ""
 
 //@ func (c *ExpressionParser) performSyntaxAnalysis
 //@   requires parserInv(c)
-//@   ensures[C02,C03] parserInv(c) && sameTokens(c) && errHasCode(result)
+//@   ensures[C02] (result == nil) == (E0(toks(c), tys(), old(c.currentTokenIndex)) >= 0)
+//@   ensures[C02] result == nil ==> c.currentTokenIndex == E0(toks(c), tys(), old(c.currentTokenIndex))
+//@   ensures[C02,C03] idxInv(c) && sameTokens(c) && errHasCode(result)
 //@   ensures[C02] c.currentTokenIndex >= old(c.currentTokenIndex)
 //@   ensures[C02] result == nil ==> c.currentTokenIndex > old(c.currentTokenIndex)
 //@   assigns c.currentTokenIndex, c.resultTokens, c.resultTokens[*], c.variableNames, c.variableNames[*]
@@ -106,12 +203,15 @@ package parsers
 //@   recgroup parser
 //@   decreases len(c.initialTokens) - c.currentTokenIndex, 7
 //@   loop 0
-//@     invariant parserInv(c) && sameTokens(c) && c.currentTokenIndex > old(c.currentTokenIndex)
+//@     invariant idxInv(c) && sameTokens(c) && c.currentTokenIndex > old(c.currentTokenIndex)
+//@     invariant E0(toks(c), tys(), old(c.currentTokenIndex)) == R0(toks(c), tys(), c.currentTokenIndex)
 //@     decreases len(c.initialTokens) - c.currentTokenIndex
 //
 //@ func (c *ExpressionParser) performSyntaxAnalysisAtLevel1
 //@   requires parserInv(c)
-//@   ensures[C02,C03] parserInv(c) && sameTokens(c) && errHasCode(result)
+//@   ensures[C02] (result == nil) == (E1(toks(c), tys(), old(c.currentTokenIndex)) >= 0)
+//@   ensures[C02] result == nil ==> c.currentTokenIndex == E1(toks(c), tys(), old(c.currentTokenIndex))
+//@   ensures[C02,C03] idxInv(c) && sameTokens(c) && errHasCode(result)
 //@   ensures[C02] c.currentTokenIndex >= old(c.currentTokenIndex)
 //@   ensures[C02] result == nil ==> c.currentTokenIndex > old(c.currentTokenIndex)
 //@   assigns c.currentTokenIndex, c.resultTokens, c.resultTokens[*], c.variableNames, c.variableNames[*]
@@ -121,7 +221,9 @@ package parsers
 //
 //@ func (c *ExpressionParser) performSyntaxAnalysisAtLevel2
 //@   requires parserInv(c)
-//@   ensures[C02,C03] parserInv(c) && sameTokens(c) && errHasCode(result)
+//@   ensures[C02] (result == nil) == (E2(toks(c), tys(), old(c.currentTokenIndex)) >= 0)
+//@   ensures[C02] result == nil ==> c.currentTokenIndex == E2(toks(c), tys(), old(c.currentTokenIndex))
+//@   ensures[C02,C03] idxInv(c) && sameTokens(c) && errHasCode(result)
 //@   ensures[C02] c.currentTokenIndex >= old(c.currentTokenIndex)
 //@   ensures[C02] result == nil ==> c.currentTokenIndex > old(c.currentTokenIndex)
 //@   assigns c.currentTokenIndex, c.resultTokens, c.resultTokens[*], c.variableNames, c.variableNames[*]
@@ -129,12 +231,15 @@ package parsers
 //@   recgroup parser
 //@   decreases len(c.initialTokens) - c.currentTokenIndex, 5
 //@   loop 0
-//@     invariant parserInv(c) && sameTokens(c) && c.currentTokenIndex > old(c.currentTokenIndex)
+//@     invariant idxInv(c) && sameTokens(c) && c.currentTokenIndex > old(c.currentTokenIndex)
+//@     invariant E2(toks(c), tys(), old(c.currentTokenIndex)) == R2(toks(c), tys(), c.currentTokenIndex)
 //@     decreases len(c.initialTokens) - c.currentTokenIndex
 //
 //@ func (c *ExpressionParser) performSyntaxAnalysisAtLevel3
 //@   requires parserInv(c)
-//@   ensures[C02,C03] parserInv(c) && sameTokens(c) && errHasCode(result)
+//@   ensures[C02] (result == nil) == (E3(toks(c), tys(), old(c.currentTokenIndex)) >= 0)
+//@   ensures[C02] result == nil ==> c.currentTokenIndex == E3(toks(c), tys(), old(c.currentTokenIndex))
+//@   ensures[C02,C03] idxInv(c) && sameTokens(c) && errHasCode(result)
 //@   ensures[C02] c.currentTokenIndex >= old(c.currentTokenIndex)
 //@   ensures[C02] result == nil ==> c.currentTokenIndex > old(c.currentTokenIndex)
 //@   assigns c.currentTokenIndex, c.resultTokens, c.resultTokens[*], c.variableNames, c.variableNames[*]
@@ -142,12 +247,15 @@ package parsers
 //@   recgroup parser
 //@   decreases len(c.initialTokens) - c.currentTokenIndex, 4
 //@   loop 0
-//@     invariant parserInv(c) && sameTokens(c) && c.currentTokenIndex > old(c.currentTokenIndex)
+//@     invariant idxInv(c) && sameTokens(c) && c.currentTokenIndex > old(c.currentTokenIndex)
+//@     invariant E3(toks(c), tys(), old(c.currentTokenIndex)) == R3(toks(c), tys(), c.currentTokenIndex)
 //@     decreases len(c.initialTokens) - c.currentTokenIndex
 //
 //@ func (c *ExpressionParser) performSyntaxAnalysisAtLevel4
 //@   requires parserInv(c)
-//@   ensures[C02,C03] parserInv(c) && sameTokens(c) && errHasCode(result)
+//@   ensures[C02] (result == nil) == (E4(toks(c), tys(), old(c.currentTokenIndex)) >= 0)
+//@   ensures[C02] result == nil ==> c.currentTokenIndex == E4(toks(c), tys(), old(c.currentTokenIndex))
+//@   ensures[C02,C03] idxInv(c) && sameTokens(c) && errHasCode(result)
 //@   ensures[C02] c.currentTokenIndex >= old(c.currentTokenIndex)
 //@   ensures[C02] result == nil ==> c.currentTokenIndex > old(c.currentTokenIndex)
 //@   assigns c.currentTokenIndex, c.resultTokens, c.resultTokens[*], c.variableNames, c.variableNames[*]
@@ -155,12 +263,15 @@ package parsers
 //@   recgroup parser
 //@   decreases len(c.initialTokens) - c.currentTokenIndex, 3
 //@   loop 0
-//@     invariant parserInv(c) && sameTokens(c) && c.currentTokenIndex > old(c.currentTokenIndex)
+//@     invariant idxInv(c) && sameTokens(c) && c.currentTokenIndex > old(c.currentTokenIndex)
+//@     invariant E4(toks(c), tys(), old(c.currentTokenIndex)) == R4(toks(c), tys(), c.currentTokenIndex)
 //@     decreases len(c.initialTokens) - c.currentTokenIndex
 //
 //@ func (c *ExpressionParser) performSyntaxAnalysisAtLevel5
 //@   requires parserInv(c)
-//@   ensures[C02,C03] parserInv(c) && sameTokens(c) && errHasCode(result)
+//@   ensures[C02] (result == nil) == (E5(toks(c), tys(), old(c.currentTokenIndex)) >= 0)
+//@   ensures[C02] result == nil ==> c.currentTokenIndex == E5(toks(c), tys(), old(c.currentTokenIndex))
+//@   ensures[C02,C03] idxInv(c) && sameTokens(c) && errHasCode(result)
 //@   ensures[C02] c.currentTokenIndex >= old(c.currentTokenIndex)
 //@   ensures[C02] result == nil ==> c.currentTokenIndex > old(c.currentTokenIndex)
 //@   assigns c.currentTokenIndex, c.resultTokens, c.resultTokens[*], c.variableNames, c.variableNames[*]
@@ -168,24 +279,32 @@ package parsers
 //@   recgroup parser
 //@   decreases len(c.initialTokens) - c.currentTokenIndex, 2
 //@   loop 0
-//@     invariant parserInv(c) && sameTokens(c) && c.currentTokenIndex > old(c.currentTokenIndex)
+//@     invariant idxInv(c) && sameTokens(c) && c.currentTokenIndex > old(c.currentTokenIndex)
+//@     invariant E5(toks(c), tys(), old(c.currentTokenIndex)) == R5(toks(c), tys(), c.currentTokenIndex)
 //@     decreases len(c.initialTokens) - c.currentTokenIndex
 //
 //@ func (c *ExpressionParser) performSyntaxAnalysisAtLevel6
 //@   requires parserInv(c)
-//@   ensures[C02,C03] parserInv(c) && sameTokens(c) && errHasCode(result)
+//@   ensures[C02,slow] (result == nil) == (E6(toks(c), tys(), old(c.currentTokenIndex)) >= 0)
+//@   ensures[C02,slow] result == nil ==> c.currentTokenIndex == E6(toks(c), tys(), old(c.currentTokenIndex))
+//@   ensures[C02,C03] idxInv(c) && sameTokens(c) && errHasCode(result)
 //@   ensures[C02] c.currentTokenIndex >= old(c.currentTokenIndex)
 //@   ensures[C02] result == nil ==> c.currentTokenIndex > old(c.currentTokenIndex)
 //@   assigns c.currentTokenIndex, c.resultTokens, c.resultTokens[*], c.variableNames, c.variableNames[*]
 //@   nopanic
 //@   recgroup parser
 //@   decreases len(c.initialTokens) - c.currentTokenIndex, 1
+//@   callsite[C02,slow] hasMoreTokens requires c.currentTokenIndex == PRIM(toks(c), tys(), afterSign(toks(c), tys(), old(c.currentTokenIndex))) &&
+//@       afterSign(toks(c), tys(), old(c.currentTokenIndex)) < len(c.initialTokens) && old(c.currentTokenIndex) < len(c.initialTokens) &&
+//@       idxInv(c) && sameTokens(c) && c.currentTokenIndex > old(c.currentTokenIndex)
 //@   callsite[C02] addTokenToResult requires typ != Element || (c.currentTokenIndex >= 1 && c.initialTokens[c.currentTokenIndex - 1].typ == RightSquareBrace)
 //@   loop 0
-//@     invariant -1 <= rangeindex && rangeindex < len(c.variableNames) && parserInv(c) && sameTokens(c) && c.currentTokenIndex > old(c.currentTokenIndex)
+//@     invariant -1 <= rangeindex && rangeindex < len(c.variableNames) && idxInv(c) && sameTokens(c) && c.currentTokenIndex > old(c.currentTokenIndex)
 //@     decreases len(c.variableNames) - rangeindex
 //@   loop 1
-//@     invariant parserInv(c) && sameTokens(c) && c.currentTokenIndex > old(c.currentTokenIndex) && paramCount >= 0 && paramCount <= c.currentTokenIndex
+//@     invariant idxInv(c) && sameTokens(c) && c.currentTokenIndex > old(c.currentTokenIndex) && paramCount >= 0 && paramCount <= c.currentTokenIndex
 //@     invariant c.currentTokenIndex < len(c.initialTokens)
+//@     invariant PRIM(toks(c), tys(), afterSign(toks(c), tys(), old(c.currentTokenIndex))) == ARGS(toks(c), tys(), c.currentTokenIndex + 1, paramCount > 0 ? 1 : 0)
+//@     invariant afterSign(toks(c), tys(), old(c.currentTokenIndex)) < len(c.initialTokens) && tk(toks(c), tys(), afterSign(toks(c), tys(), old(c.currentTokenIndex))) == Variable && tk(toks(c), tys(), afterSign(toks(c), tys(), old(c.currentTokenIndex)) + 1) == LeftBrace
 //@     decreases len(c.initialTokens) - c.currentTokenIndex
 //
